@@ -76,6 +76,14 @@ CHECKS = {
             'mirror image for -d; zero-drift smeared == unsmeared.',
             'general injection (checked by C01) is the reference; sub-step count taken from the property formula on the doubles passed; box-edge pixels excluded',
             'DESIGN.md 3/C13'),
+    'C10': ('exploration',
+            'model-based stateful testing of stream/antenna request histories against a rational-time clock model, closed-form content and a same-seed single-request twin (chunking metamorphic relation)',
+            'Generated histories of get/set_time/add_time/reset_start/update_noise on data streams and 1-2 polarisation antennas with 0-2 noise, '
+            'chirp and custom (real/complex) sources: every delivered time axis is compared with an exact rational clock, deterministic content '
+            'with its closed form on that axis, and the noise of all requests bit for bit with a twin\'s single request of the total length; '
+            'antenna clock == stream clocks, x/y stacking, complex promotion.',
+            'clock tolerance (ops+4) ulp; chirp tolerance 32 ulp of the largest phase; noise identity is relative to the same code under another chunking',
+            'DESIGN.md 3/C10'),
 }
 
 ALL = [f'C{i:02d}' for i in range(1, 21)]
